@@ -1002,6 +1002,12 @@ mutant('S4-head-error-parked-instead-of-reported', ['C04', 'C05'], [
 mutant('T9-commit-drops-its-transitions-sometimes', ['C10'], [
     ('src/parallel_state.rs', "        let transitions = self.shared.cache.apply_evm_state_inner(evm_state);\n        if let Some(state) = self.transition_state.as_mut() {", "        let transitions = self.shared.cache.apply_evm_state_inner(evm_state);\n        if let Some(state) = self.transition_state.as_mut() && std::hint::black_box(true) {"),
 ], ['|T9|'])
+mutant('H4-incoming-transfer-not-always-undone', ['C13'], [
+    ('src/delegated_safety/reserve.rs', "                } else if *to == address && *from != address {", "                } else if *to == address && *from != address && std::hint::black_box(true) {"),
+], ['|H4|'])
+mutant('H4-delegated-debit-recorded-only-sometimes', ['C13'], [
+    ('src/delegated_safety/reserve.rs', "            if is_delegated {", "            if is_delegated && std::hint::black_box(true) {"),
+], ['|H4|'])
 mutant('LC5-validate-stale-test-inverted', ['C05'], [(S, """        if tx_state.incarnation != incarnation {
             self.abort(AbortReason::ParallelError {
                 txid,
